@@ -1,0 +1,17 @@
+//go:build verif
+
+// Contracts for the verification machinery in /verif (govc); compiled only with -tags verif.
+package multierr
+
+// A MultiErr collects errors: Append writes only the collector itself and returns it; Reduce reads it.
+//@ func NewMultiErr
+//@   ensures fresh: r0 != nil && fresh(r0) && r0.errors == nil
+//@   assigns nothing
+
+//@ func (*MultiErr).Append
+//@   ensures self: r0 == me
+//@   ensures own: me.errors == nil || sameobj(me.errors, old(me.errors)) || fresh(me.errors)
+//@   assigns me, me.errors
+
+//@ func (*MultiErr).Reduce
+//@   assigns nothing
